@@ -88,6 +88,9 @@ def dfs_configs(tier, retry=True, return_results=True):
     # two runs on the same pool: the first one may fail (poison input kills every worker), fresh workers are added, second run
     cfgs.append(dict(workers=1, inputs=2, extra=0, max_deaths=1, retry=retry, return_results=return_results, runs=2))
     cfgs.append(dict(workers=2, inputs=2, extra=1, max_deaths=0, retry=retry, return_results=return_results, poison=[1], runs=2))
+    # three workers, two deaths: a dead worker's input is re-dispatched while another idle worker has died unnoticed
+    cfgs.append(dict(workers=3, inputs=2, extra=0, max_deaths=2, retry=retry, return_results=return_results))
+    cfgs.append(dict(workers=3, inputs=3, extra=0, max_deaths=2, retry=retry, return_results=return_results))
     # the same pool after restart_workers(): a run with a death, restart, a run with a death and a survivor
     cfgs.append(dict(workers=2, inputs=2, extra=0, max_deaths=1, retry=retry, return_results=return_results, runs=2, between='restart'))
     cfgs.append(dict(workers=2, inputs=3, extra=1, max_deaths=1, retry=retry, return_results=return_results, runs=2, between='restart'))
